@@ -142,7 +142,7 @@ func check(argv []string) int {
 	if cfg == nil {
 		cfg = &PropCfg{}
 	}
-	tmo := 10 * time.Second
+	tmo := 15 * time.Second
 	if *tier == "thorough" {
 		tmo = 60 * time.Second
 	}
@@ -232,10 +232,40 @@ func check(argv []string) int {
 		}
 	}
 	structRes := runStructChecks(w, cfg.Struct)
+	// classification
+	findings := loadFindings(filepath.Join(*verif, "KNOWN_FINDINGS.jsonl"))
+	known := map[string]Finding{}
+	for _, f := range findings {
+		if f.Property == *prop && f.Status == "known" {
+			known[f.Obligation] = f
+		}
+	}
+	basePath := filepath.Join(*verif, "baseline", *prop+".json")
+	baseline := map[string]bool{}
+	baseSeen := map[string]bool{} // every sweep obligation name seen on the pinned tree
+	if data, err := os.ReadFile(basePath); err == nil {
+		var bf struct {
+			Claimed   []string `json:"claimed"`
+			Unclaimed []string `json:"unclaimed"`
+		}
+		json.Unmarshal(data, &bf)
+		for _, n := range bf.Claimed {
+			baseline[n] = true
+			baseSeen[n] = true
+		}
+		for _, n := range bf.Unclaimed {
+			baseSeen[n] = true
+		}
+	}
 	var all []*engine.Obligation
 	owner := map[*engine.Obligation]*engine.FuncResult{}
+	skippedUnclaimed := 0
 	for _, r := range results {
 		for _, o := range r.Obls {
+			if _, isKnown := known[o.Name]; r.Ring == "sweep" && !*updateBase && baseSeen[o.Name] && !baseline[o.Name] && !isKnown {
+				skippedUnclaimed++ // known not to discharge on the pinned tree: never claimed, not re-solved
+				continue
+			}
 			all = append(all, o)
 			owner[o] = r
 		}
@@ -256,23 +286,6 @@ func check(argv []string) int {
 	}
 	ors := engine.Discharge(all, tmo, 16, tmpdir)
 
-	// classification
-	findings := loadFindings(filepath.Join(*verif, "KNOWN_FINDINGS.jsonl"))
-	known := map[string]Finding{}
-	for _, f := range findings {
-		if f.Property == *prop && f.Status == "known" {
-			known[f.Obligation] = f
-		}
-	}
-	basePath := filepath.Join(*verif, "baseline", *prop+".json")
-	baseline := map[string]bool{}
-	if data, err := os.ReadFile(basePath); err == nil {
-		var names []string
-		json.Unmarshal(data, &names)
-		for _, n := range names {
-			baseline[n] = true
-		}
-	}
 	type violation struct {
 		Obl    string `json:"obligation"`
 		Kind   string `json:"kind"`
@@ -293,7 +306,7 @@ func check(argv []string) int {
 	byBackend := map[string]int{}
 	solverSecs := 0.0
 	var samples []map[string]interface{}
-	var newBaseline []string
+	var newBaseline, newUnclaimed []string
 	var undecidedSweep []string
 	perFunc := map[string][2]int{}
 	for _, or := range ors {
@@ -303,11 +316,27 @@ func check(argv []string) int {
 		if r.Ring == "sweep" {
 			if or.OK {
 				newBaseline = append(newBaseline, o.Name)
+			} else {
+				newUnclaimed = append(newUnclaimed, o.Name)
+			}
+			if f, ok := known[o.Name]; ok && !or.OK && !*updateBase {
+				if !knownSeen[o.Name] {
+					knownHit = append(knownHit, f)
+					knownSeen[o.Name] = true
+				}
+				continue
 			}
 			if !*updateBase && !baseline[o.Name] {
 				nSweepUnclaimed++
 				if !or.OK {
 					undecidedSweep = append(undecidedSweep, o.Name+" ["+or.R.Status+"]")
+				}
+				// an obligation that did not exist on the pinned tree and has a counterexample
+				if !or.OK && !baseSeen[o.Name] && or.R.Status == "sat" && !o.Vacuity {
+					if _, ok := known[o.Name]; !ok {
+						v := violation{Obl: o.Name, Kind: o.Kind, Func: o.Func, Pos: o.Pos, Text: o.Text, Status: or.R.Status, Model: or.R.Model, Why: "new obligation (absent on the pinned tree) with a counterexample"}
+						viols = append(viols, v)
+					}
 				}
 				continue
 			}
@@ -383,8 +412,9 @@ func check(argv []string) int {
 	// claimed sweep obligations that disappeared together with their function count as lost proof only if the function still exists with fewer discharged obligations: handled by name match above.
 	if *updateBase {
 		sort.Strings(newBaseline)
+		sort.Strings(newUnclaimed)
 		os.MkdirAll(filepath.Dir(basePath), 0o755)
-		data, _ := json.MarshalIndent(newBaseline, "", " ")
+		data, _ := json.MarshalIndent(map[string][]string{"claimed": newBaseline, "unclaimed": newUnclaimed}, "", " ")
 		os.WriteFile(basePath, data, 0o644)
 		fmt.Fprintf(os.Stderr, "baseline %s: %d claimed obligations\n", basePath, len(newBaseline))
 	}
@@ -479,7 +509,7 @@ func check(argv []string) int {
 			"solver_seconds":           solverSecs,
 			"vcgen_seconds":            genSecs,
 			"samples":                  samples,
-			"sweep_ring":               map[string]interface{}{"claimed": nSweepClaimed, "not_claimed": nSweepUnclaimed, "not_claimed_undecided": undecidedSweep, "out_of_reach": outOfReach},
+			"sweep_ring":               map[string]interface{}{"claimed": nSweepClaimed, "not_claimed": nSweepUnclaimed + skippedUnclaimed, "not_claimed_undecided": undecidedSweep, "out_of_reach": outOfReach},
 			"known_findings":           kf,
 			"per_obligation_timeout_s": tmo.Seconds(),
 			"explanation":              "obligations = proof obligations generated from /repo's current SSA for the functions under contract (plus claimed sweep-ring safety obligations); discharged = those the SMT portfolio answered unsat (vacuity checks: sat)",
